@@ -16,7 +16,7 @@ import ast
 from ..model import AnalysisError, unparse
 from ..report import RuleResult
 from ..roles import const_values
-from ._c12_flow import Flow, call_name, instance_facts, parents
+from ._c12_flow import Flow, call_name, instance_facts, parents, test_facts
 
 # methods / functions whose result may be the very object they are applied to (a view, or the operand itself)
 ALIASING_METHODS = {"astype", "reshape", "ravel", "view", "squeeze", "transpose", "swapaxes", "get", "setdefault", "__getitem__", "items", "values", "keys"}
@@ -276,6 +276,19 @@ def _entry_steps(chain) -> bool:
     return any(isinstance(x, ast.Attribute) and x.attr in META for x in chain)
 
 
+def _truth_tested(test, is_subject) -> bool:
+    """the condition uses <subject> as a truth value: the test itself, an operand of and / or / not"""
+    if is_subject(test):
+        return True
+    if isinstance(test, ast.BoolOp):
+        return any(_truth_tested(x, is_subject) for x in test.values)
+    if isinstance(test, ast.UnaryOp) and isinstance(test.op, ast.Not):
+        return _truth_tested(test.operand, is_subject)
+    if isinstance(test, ast.Call) and isinstance(test.func, ast.Name) and test.func.id == "bool" and len(test.args) == 1:
+        return _truth_tested(test.args[0], is_subject)
+    return False
+
+
 def rule_nested(ctx, _flow) -> RuleResult:
     res = RuleResult(
         "C12.NESTED",
@@ -283,7 +296,8 @@ def rule_nested(ctx, _flow) -> RuleResult:
         "in the copy methods, a value taken out of the SOURCE's metadata (an entry, a value of .items() / .values() / .get(..)) reaches the "
         "metadata of ANOTHER entity (a <x>.*metadata*(..) call, <x>.metadata = .., an entry store below <x>.metadata) only through a "
         "copying call (deepcopy ...) or under an isinstance guard admitting immutable scalars only — nested dicts / lists of the "
-        "metadata are not shared between copy and source",
+        "metadata are not shared between copy and source (entry by entry or through a dict comprehension); and whether an entry is "
+        "transferred is decided by what it is (isinstance / is None), never by its truth value (0, False, '' are entries too)",
         floor=1,
     )
     for fn, roots in copy_functions(ctx):
@@ -322,8 +336,10 @@ def rule_nested(ctx, _flow) -> RuleResult:
                         if own is not None:
                             sinks.append((own, [n.value], n, ".metadata[..] = .."))
 
-        def carried(e, fl=fl, _depth=0):
-            """the values an expression hands over: the elements of container displays, else the value itself"""
+        conds: dict = {}  # id(leaf) -> the comprehension filters under which the leaf is handed over
+
+        def carried(e, fl=fl, _depth=0, conds=conds):
+            """the values an expression hands over: the elements of container displays / comprehensions, else the value itself"""
             out = []
             for o in fl.origins_at(e):
                 if _depth > 6:
@@ -336,6 +352,17 @@ def rule_nested(ctx, _flow) -> RuleResult:
                         out += carried(val, fl, _depth + 1)
                 elif isinstance(o, ast.Starred):
                     out += carried(o.value, fl, _depth + 1)
+                elif isinstance(o, ast.DictComp):
+                    # {k: v for k, v in <mapping>.items() if ..}: what each entry hands over; its filters are conditions on the way
+                    conds[id(o)] = [c for g in o.generators for c in g.ifs]
+                    for leaf in carried(o.value, fl, _depth + 1):
+                        conds.setdefault(id(leaf), []).extend(conds[id(o)])
+                        out.append(leaf)
+                elif isinstance(o, (ast.ListComp, ast.SetComp, ast.GeneratorExp)):
+                    conds[id(o)] = [c for g in o.generators for c in g.ifs]
+                    for leaf in carried(o.elt, fl, _depth + 1):
+                        conds.setdefault(id(leaf), []).extend(conds[id(o)])
+                        out.append(leaf)
                 elif isinstance(o, ast.Call) and isinstance(o.func, ast.Name) and o.func.id == "dict":
                     for val in list(o.args) + [k.value for k in o.keywords]:
                         out += carried(val, fl, _depth + 1)  # dict(m) / dict(k=v): a new mapping holding the same values
@@ -362,11 +389,47 @@ def rule_nested(ctx, _flow) -> RuleResult:
                     nm = leaf.id if isinstance(leaf, ast.Name) else None
                     facts = instance_facts(par, st, v.node, lambda e, me=me: bool({ident(o) for o in fl.origins_at(e)} & me), strict=False,
                                            rebinds=lambda x, nm=nm: nm is not None and isinstance(x, ast.Assign) and all(isinstance(t, ast.Name) and t.id == nm for t in x.targets)) or []
+                    is_leaf = lambda e, me=me: bool({ident(o) for o in fl.origins_at(e)} & me)  # noqa: E731
+                    for cond in conds.get(id(leaf), []):
+                        facts = facts + (test_facts(cond, True, is_leaf, strict=False) or [])
                     if any(kind == "type" and names and names <= IMMUTABLE for kind, names in facts):
                         continue
                     shared = shared or (leaf, chain)
+            # ... and whether an entry is transferred at all is decided by what it IS (isinstance, is None), never by its truthiness:
+            # `if value` also turns away 0, 0.0, False, "" — entries the copy must have
+            dropped = None
+            for val in values:
+                for leaf in carried(val):
+                    lchain = from_source(fl, leaf, roots)
+                    if lchain is None:
+                        # a copy of the entry (deepcopy(value)): the entry itself is the argument
+                        inner = [a for a in ast.walk(leaf) if isinstance(a, ast.Name)] if isinstance(leaf, ast.Call) else []
+                        lchain = next((c for c in (from_source(fl, a, roots) for a in inner) if c and _entry_steps(c)), None)
+                        subject = next((a for a in inner if from_source(fl, a, roots)), None)
+                    else:
+                        subject = leaf
+                    if not lchain or not _entry_steps(lchain) or subject is None:
+                        continue
+                    me = {ident(o) for o in fl.origins_at(subject)} | {ident(subject)}
+                    is_it = lambda e, me=me: isinstance(e, ast.Name) and bool(({ident(o) for o in fl.origins_at(e)} | {ident(e)}) & me)  # noqa: E731
+                    tests = list(conds.get(id(leaf), []))
+                    cur, child = par.get(st), st
+                    while cur is not None and cur is not v.node:
+                        if isinstance(cur, ast.If):
+                            tests.append(cur.test)
+                        blk = next((b for b in (getattr(cur, "body", None), getattr(cur, "orelse", None)) if isinstance(b, list) and child in b), None)
+                        tests += [pv.test for pv in (blk[: blk.index(child)] if blk else []) if isinstance(pv, ast.If) and any(isinstance(x, (ast.Continue, ast.Return)) for x in ast.walk(pv))]
+                        cur, child = par.get(cur), cur
+                    if any(_truth_tested(t, is_it) for t in tests):
+                        dropped = dropped or subject
+            if dropped is not None:
+                res.find(fn.cls.name, fn.name, f"entries of the source's metadata reach <other entity>{text} only when they are truthy", f"{fn.module.relpath}:{node.lineno}",
+                         "the condition under which an entry is handed to the copy tests the entry's truth value: entries that are 0, 0.0, False or empty are "
+                         "legitimate values of the source and are missing from the copy")
+            ok = shared is None and dropped is None
+            res.inst(f"{fn.qualname}:{node.lineno} <other entity>{text}: entries of the source's metadata handed over by reference: {shared is not None}"
+                     + ("; only when truthy" if dropped is not None else ""), nontrivial=True, ok=ok)
             ok = shared is None
-            res.inst(f"{fn.qualname}:{node.lineno} <other entity>{text}: entries of the source's metadata handed over by reference: {not ok}", nontrivial=True, ok=ok)
             if not ok:
                 res.find(fn.cls.name, fn.name, f"entries of the source's metadata reach <other entity>{text} without a copy", f"{fn.module.relpath}:{node.lineno}",
                          "the value comes out of the source's metadata and is stored in the other entity's metadata as the same object (no deepcopy on the "
